@@ -11,6 +11,9 @@ static std::string oracle(const Case& c) {
     std::string sec = c.bytes("secret"); sec.resize(19, '\0'); std::vector<uint8_t> sv(sec.begin(), sec.end());
     unsigned feat = (unsigned)c.u("features") & 0x17u; model::Seed cur = g::to_seed(sv, (int)(c.u("birthday") & 1023u), feat);
     std::string err; lib::SeedPtr s(g::build_by_create(cur, 7, 0, &err)); if (!s.p) return "cannot create seed: " + err;
+    // the enabled-feature mask may have been narrowed since the seed was made: the operation belongs to the seed, whose user bits it must leave alone
+    bool narrowed = false; if (c.has("narrow")) { polyseed_enable_features((unsigned)c.u("narrow") & 7u); narrowed = true; ev.count((feat & 7u & ~(unsigned)c.u("narrow")) ? "mask-narrowed-before-crypt:seed-holds-a-disabled-bit" : "mask-narrowed-before-crypt"); }
+    struct Restore { bool on; ~Restore() { if (on) polyseed_enable_features(7); } } restore{narrowed};
     std::string pw = c.bytes("pw"); if (pw.find('\0') != std::string::npos) pw.resize(pw.find('\0'));
     if (!model::valid_utf8(pw)) { ev.count("discard:invalid-utf8-password"); return ""; }   // arbitrary bytes are C14's business
     std::string pwn = model::nfkd(pw); if (pwn.size() > POLYSEED_STR_SIZE - 1) { ev.count("discard:password-too-long"); return ""; }
@@ -48,6 +51,7 @@ static std::string oracle(const Case& c) {
     }
     if (only_same && same_parity == 0 && !(cur == orig)) return "an even number of applications with the same (or canonically equivalent) password does not restore the seed";
     // the result is a well-formed seed: every representation round-trips
+    if (narrowed) polyseed_enable_features(7);
     {
         lib::Image img = lib::store(s); lib::SeedPtr l; int st = polyseed_load(img.data(), l.out()); if (st != 0) { l.p = nullptr; return std::string("load of the seed after crypt returned ") + model::status_name(st); }
         if (lib::store(l) != img) return "store/load of the seed after crypt changes it";
@@ -98,7 +102,7 @@ static void run() {
         int n = *rc::gen::element(1, 1, 2, 2, 2, 3, 4); std::string chain; bool mixed = *in_range<int>(0, 3) == 0; for (int i = 0; i < n; i++) chain.push_back((char)(mixed ? *in_range<int>(0, 3) : *in_range<int>(0, 2)));
         c.set("chain", hex(chain)); int mm = *rc::gen::element(0, 0, 0, 1, 1, 1, 2); c.set("maskmode", (uint64_t)mm);
         if (mm == 1) c.set("mask", hex(*rc::gen::weightedOneOf<std::vector<uint8_t>>({{4, vf::bytes(32)}, {1, rc::gen::just(std::vector<uint8_t>(32, 0))}, {1, rc::gen::just(std::vector<uint8_t>(32, 0xFF))}, {2, rc::gen::map(vf::bytes(32), [](std::vector<uint8_t> v) { v[18] |= 0xC0; return v; })}})));
-        c.set("lang", REG->at(*g::lang_index()).name_en); c.set("coin", (uint64_t)*g::coin()); if (*in_range<int>(0, 8) == 0) c.set("allocfail", 1);
+        c.set("lang", REG->at(*g::lang_index()).name_en); c.set("coin", (uint64_t)*g::coin()); if (*in_range<int>(0, 8) == 0) c.set("allocfail", 1); if (*in_range<int>(0, 3) == 0) c.set("narrow", *in_range<unsigned>(0, 8));
         set_current(c); std::string m = oracle(c); if (!m.empty()) VF_FAIL(c, m);
     });
 }
